@@ -1,9 +1,11 @@
 #!/bin/bash
 # tools/try_mutant.sh <patch.diff> <Cxx> [more props...]: apply to /repo, run quick checks, revert.
+# Serialised through a lock: only one mutant may be applied to /repo at a time.
 P="$1"; shift
+exec 9>/var/tmp/fv_mutant.lock; flock 9
 git -C /repo apply "$P" || exit 2
 for c in "$@"; do
-  echo "== $c"; ./check "$c" 2>&1 | grep -E "VIOLATION|KNOWN|broken|internal|crash" | head -5; echo "exit=$?"
+  echo "== $c"; ./check "$c" 2>&1 | grep -E "VIOLATION|KNOWN|broken|internal|crash" | head -5
 done
-git -C /repo checkout -- . 
+git -C /repo checkout -- .
 git -C /repo status --short | head -3
